@@ -371,6 +371,9 @@ pub struct ExecOpts {
     pub c08: bool,
     /// call decode_data/decode_str even when error correction failed (C05: "any codeword slice")
     pub data_after_ec_failure: bool,
+    /// run the data decoders and the whole-symbol DataMatrix::decode (needed by the C03 and C05 oracles only;
+    /// C08 and C09 do not look at them, and a defect there must not keep those checks from finishing)
+    pub data_stage: bool,
 }
 
 #[inline]
@@ -704,14 +707,14 @@ pub fn execute(ctx: &Ctx, trace: &Trace, opts: &ExecOpts) -> Outcome {
                 }
             }
         }
-    } else {
+    } else if opts.data_stage {
         // Stream producer without pixels: the data decoders are the entry point
         consumer_data(&s1, &mut o, &mut staged_panicked);
     }
 
     // ---------------- consumer, whole ----------------
     let mut whole: Option<Result<Vec<u8>, DecodingError>> = None;
-    if has_pixels {
+    if has_pixels && opts.data_stage {
         match guard(|| DataMatrix::decode(&px, width)) {
             Ok(r) => {
                 o.whole_ok = r.is_ok();
@@ -913,6 +916,9 @@ fn consumer_ec_and_data(
                         break;
                     }
                 }
+            }
+            if !opts.data_stage {
+                return None;
             }
             let d = consumer_data(&rx[..rs.n_data.min(rx.len())], o, staged_panicked);
             d.map(|r| r.map_err(DecodingError::DataDecoding))
